@@ -57,6 +57,7 @@ func checkC15(c *Ctx) {
 	c.checkInviteGate(setters)
 	// (3) endings clear
 	c.checkEndingsClear(clearers)
+	c.checkEndingOrigin(clearers)
 	// (4) re-entrancy
 	c.checkSlotReentrancy(slot)
 	// (5) role checks
